@@ -190,14 +190,17 @@ def boundary_states(acc, unit):
     full, core = get_alpha(unit["seed"])
     T = ns.CommandResponseStream
 
+    def carried(v):
+        """values that are carried from message to message on purpose: an event waiting to be yielded, the command code
+        of the last command, a decoded message object"""
+        if isinstance(v, tuple) and v:
+            if v[0] in ("EV", "WEV", "TPM_CC", "Command", "Response"):
+                return True
+        return False
+
     def strip(state):
-        out = []
-        for name, lasti, loc in state:
-            drop = {"marshal": ("command_code", "event"), "process_command_response_stream": ("command",)}.get(name, ())
-            if name == "process_command_response_stream":
-                lasti = None  # first iteration vs later iterations of the same loop
-            out.append((name, lasti, tuple((k, v) for k, v in loc if k not in drop)))
-        return tuple(out)
+        # no function or variable name of tpmstream is assumed: carried values are recognised by what they are
+        return tuple((name, tuple((k, v) for k, v in loc if not carried(v))) for name, lasti, loc in state)
 
     # the state is captured when the pump asks for the next byte, i.e. before the events of the last byte are
     # drained: compare one byte into the next command (its first tag byte) with one byte into the first command
